@@ -343,7 +343,22 @@ def chains_case(p, res):
             res.ev(1, nontrivial=1, transitions=4)
             if not (torch.equal(y1, y2) and torch.equal(y1, y3) and torch.equal(y1, y4)):
                 res.viol("composite", "+".join(names), "composite=sequential", f"CompositeConstraint({names}) differs from sequential application / apply_constraint_chain / combine_constraints")
-    res.sample({"chains": 155})
+    # the same constraint OBJECT used at two positions of a chain (a module registered twice): both applications must happen
+    for a in range(len(pool)):
+        for b in range(len(pool)):
+            if a == b:
+                continue
+            A, B = pool[a][1](), pool[b][1]()
+            chain = [A, B, A]
+            y1 = KC.CompositeConstraint(chain)(X)
+            comp2 = KC.CompositeConstraint([A])
+            comp2.add_constraint(B)
+            comp2.add_constraint(A)
+            y2 = A(B(A(X)))
+            res.ev(1, nontrivial=1, transitions=3)
+            if not (torch.equal(y1, y2) and torch.equal(comp2(X), y2)):
+                res.viol("composite", f"{pool[a][0]}+{pool[b][0]}+{pool[a][0]}(same instance)", "composite=sequential", "a chain that uses the same constraint instance twice differs from sequential application")
+    res.sample({"chains": 155 + 20})
 
 
 def ofdm_case(p, res):
